@@ -33,6 +33,14 @@ CHECKS = {
              "str() output is parsed back by the real parser and TLC validates: it parses, has the same value (solution set for equations) and the same variables.",
         technique="TLC trace validation of print/re-parse round trips against the exact field semantics",
         ref="5/C04"),
+    "C05": dict(
+        text="EvalBig.tla states the evaluation contract with three independent views computed by TLC: the exact value of integer-pure trees in arbitrary-precision limb "
+             "arithmetic (BigInt.tla, self-checked against TLC's native arithmetic at start-up), the exact small rational with NaN for trees through division or decimals, and "
+             "the error contract (absent / None variable, unequal equation). Trees over operands from 0 to 10^20 (literals and bindings), powers up to exponent 70, factorials "
+             "up to 25!, zero divisors behind zero factors, 13 shapes x 9 partial contexts are evaluated by the real code and every observed typed result is validated by TLC.",
+        technique="TLA+ exact-arithmetic evaluation contract (limb big integers, rationals, NaN, errors); TLC trace validation of evaluate() results",
+        ref="5/C05",
+        note=TB + " Float results are judged only when the exact value is a small rational (within 4 ulp); transcendental powers are not judged."),
     "C06": dict(
         text="Probe traces (can_apply_to on every node twice with heap snapshots around, find_nodes with r_index of every node, find_node) and step traces for every "
              "rule instance over a broad start set; TLC validates: asking does not change any pointer or payload, answers are repeatable, find_nodes is exactly the "
@@ -45,6 +53,13 @@ CHECKS = {
              "off the path to the rewritten node's parent identical; variable set unchanged; the source tree pointer- and payload-identical; no node shared with it.",
         technique="TLA+ heap well-formedness + context contract; TLC trace validation of before/after heaps",
         ref="5/C07"),
+    "C16": dict(
+        text="TLC (MC_Terms) generates every rearrangement class - all orderings x groupings of each multiset of addends, closed under the AC moves, bag invariant checked - "
+             "and each member is built by parsing and by constructors for has_like_terms; TLC validates one answer per class, reflexivity/symmetry of terms_are_like on recognised "
+             "terms, get_term_ex of the parsed text of every (c, v, e) triple, make_term's value c*v^e by exact field evaluation and its decomposition, factor(n) = divisor pairs, "
+             "and that no term predicate raises on non-equation trees.",
+        technique="TLC-generated AC-rearrangement classes replayed into the code; TLC trace validation of term utilities against the reference term algebra",
+        ref="5/C16"),
     "C03": dict(
         text="The documented grammar is written as a reference parser in TLA+ (Grammar.tla, from the docs and the property text, not from the code). "
              "TLC explores it over all token strings up to the bound (operand-order, kinds-only and variable lemmas) and emits every sentence; all token "
